@@ -538,6 +538,17 @@ that FOLLOW it (what the seeded change did in streaming mode) -/
 example : (runRef false [] RefState.init exActs).reads.head? =
     some (0, [([88, 45, 65], [50]), ([72, 111, 115, 116], [104])]) := by decide
 example : ([([67], [118])] : Hdrs) ≠ [] := by decide
+/-- a layout whose padding is Unicode white space (NBSP before the line, U+3000 + CR after it, U+2028 / NEL / U+1680 inside
+`[key: value]`, a blank line of U+205F, trailing U+00A0) is a permitted layout: the round trips apply to it -/
+def exLayU : Layout :=
+  { lead := [[0xE2, 0x81, 0x9F]]
+    per := [{ pre := [0xC2, 0xA0], post := [0xE3, 0x80, 0x80, 13], i1 := [0xE2, 0x80, 0xA8], i2 := [0xC2, 0x85],
+              i3 := [0xE1, 0x9A, 0x80, 32], i4 := [0xE2, 0x80, 0x8A], blanks := [[9, 0xE2, 0x80, 0xAF]] },
+            { pre := [0xE2, 0x80, 0x80, 32], post := [0xC2, 0xA0, 13] }]
+    finalNL := true, trail := [0xC2, 0xA0] }
+example : layoutOK exLayU = true ∧ wellFormed .uri exItems exLayU := by
+  refine ⟨by decide, by decide, by decide, fun _ => by decide⟩
+example : render .uri exItems exLayU ≠ render .uri exItems exLay := by decide
 /-- `http://h.x:8080/a?b=c` meets the hypotheses of `C07_absolute_target`, and such entries are inside `targetsKnown` -/
 example : hostOK [104, 46, 120, 58, 56, 48, 56, 48] = true ∧ uriOK [47, 97, 63, 98, 61, 99] = true
     ∧ targetsKnown [.req (httpPrefix ++ [104, 46, 120, 58, 56, 48, 56, 48] ++ [47, 97, 63, 98, 61, 99]) [116] []] = true := by decide
